@@ -4,7 +4,7 @@ import (
 	"bytes"
 	"encoding/json"
 	"fmt"
-	"math"
+	"math/big"
 	"sort"
 	"strconv"
 )
@@ -29,8 +29,28 @@ func parseSchema(text string) map[string]any {
 	return s
 }
 
-// num reports whether v is a JSON number (in any Go representation a value
-// tree can carry) and its value.
+// rat reports whether v is a JSON number (in any Go representation a value
+// tree can carry) and its EXACT value (integers above 2^53 must not be rounded).
+func rat(v any) (*big.Rat, bool) {
+	switch x := v.(type) {
+	case float64:
+		r := new(big.Rat).SetFloat64(x)
+		return r, r != nil
+	case int64:
+		return new(big.Rat).SetInt64(x), true
+	case int:
+		return new(big.Rat).SetInt64(int64(x)), true
+	case json.Number:
+		r, ok := new(big.Rat).SetString(string(x))
+		if !ok {
+			panic("c14: bad json.Number " + string(x))
+		}
+		return r, true
+	}
+	return nil, false
+}
+
+// num is rat rounded to float64 (only for turning typed trees into plain ones).
 func num(v any) (float64, bool) {
 	switch x := v.(type) {
 	case float64:
@@ -50,10 +70,10 @@ func num(v any) (float64, bool) {
 }
 
 func hasType(v any, t string) bool {
-	f, isNum := num(v)
+	r, isNum := rat(v)
 	switch t {
 	case "integer":
-		return isNum && f == math.Trunc(f)
+		return isNum && r.IsInt()
 	case "number":
 		return isNum
 	case "string":
@@ -70,10 +90,10 @@ func hasType(v any, t string) bool {
 }
 
 func scalarEqual(a, b any) bool {
-	fa, na := num(a)
-	fb, nb := num(b)
+	ra, na := rat(a)
+	rb, nb := rat(b)
 	if na || nb {
-		return na && nb && fa == fb
+		return na && nb && ra.Cmp(rb) == 0
 	}
 	switch x := a.(type) {
 	case string:
@@ -104,6 +124,10 @@ func firstViolation(schema map[string]any, v any, path string) (where, keyword s
 			if !hasType(v, arg.(string)) {
 				return path, "type", false
 			}
+		case "const":
+			if !scalarEqual(arg, v) {
+				return path, "const", false
+			}
 		case "enum":
 			found := false
 			for _, m := range arg.([]any) {
@@ -113,8 +137,8 @@ func firstViolation(schema map[string]any, v any, path string) (where, keyword s
 				return path, "enum", false
 			}
 		case "minimum", "maximum":
-			lim, _ := num(arg)
-			if f, isNum := num(v); isNum && ((k == "minimum" && f < lim) || (k == "maximum" && f > lim)) {
+			lim, _ := rat(arg)
+			if r, isNum := rat(v); isNum && ((k == "minimum" && r.Cmp(lim) < 0) || (k == "maximum" && r.Cmp(lim) > 0)) {
 				return path, k, false
 			}
 		case "required":
